@@ -14,7 +14,7 @@ def forward_loops(body, tr, pattern):
             t = body.term(b)
             if t["k"] == "call" and is_callee(t, r"Iterator::next$|Iterator>::next$"):
                 s = canon(tr.operand(t["args"][0]))
-                m = re.match(r"^&IntoIterator::into_iter\(&\*?\*?(.*)\)$", s)
+                m = re.match(r"^&IntoIterator::into_iter\(&?\*?\*?(.*)\)$", s)
                 if m and re.search(pattern, m.group(1)) and not re.search(r"\b(rev|skip|take|filter|step_by|chain|zip|enumerate|map)\(", m.group(1)):
                     # the innermost loop containing this `next` is the loop it drives
                     if b not in best or len(bl) < len(best[b][1]):
@@ -32,6 +32,30 @@ def once_per_iteration(body, h, bl, call_blocks):
     return True, "exactly one call on every iteration"
 
 
+def internal_iteration(prog, f, tr, pattern, callee_pat):
+    """`<X>.iter().try_for_each(|e| …)` / `for_each`: the forward, stop-at-first-error internal form of the plain loop.
+    Returns (ok, message) when f drives such an iteration over a container matching `pattern`, else None."""
+    body = f.body
+    for b, t in body.calls():
+        if not is_callee(t, r"Iterator::try_for_each$", r"Iterator::for_each$"):
+            continue
+        recv = canon(tr.operand(t["args"][0]))
+        if not re.search(pattern, recv) or re.search(r"\b(rev|skip|take|filter|step_by|chain|zip|enumerate|map)\(", recv) or "slice::iter(" not in recv:
+            continue
+        cl = [c for c in prog.closures_of(f) if c.body is not None]
+        for c in cl:
+            cb = c.body
+            calls = {x for x, ct in cb.calls() if is_callee(ct, callee_pat)}
+            if not calls:
+                continue
+            rets = set(cb.return_blocks())
+            if len(calls) == 1 and not (cb.reach_from([0], avoid=calls) & rets) and not natural_loops(cb):
+                return True, "exactly one call for every element"
+            return False, "an element can be skipped or visited more than once"
+        return False, "the closure does not visit the element"
+    return None
+
+
 def run_driver(prog, rep, rule="C01.D"):
     rep.rule(rule, "stanzas are visited in file order (strict) / selected by pattern index (lazy), the visitor runs exactly once per "
                    "match, locals are cleared per match and the statements of a block run in order, each exactly once")
@@ -42,7 +66,10 @@ def run_driver(prog, rep, rule="C01.D"):
         loops = forward_loops(body, tr, r"arg:self\.stanzas$")
         key = "%s :: stanzas in file order" % f.id
         n += 1
-        if len(loops) != 1:
+        internal = internal_iteration(prog, f, tr, r"arg:self\.stanzas\)*$", r"<impl tsg::ast::Stanza>::try_visit_matches_strict$")
+        if len(loops) != 1 and internal is not None:
+            rep.check(internal[0], rule, key, f.loc(), "self.stanzas.iter().try_for_each(..): " + internal[1], "per-stanza visit: " + internal[1])
+        elif len(loops) != 1:
             rep.violation(rule, key, f.loc(), "no plain forward loop over self.stanzas")
         else:
             h, bl, nb = loops[0]
